@@ -194,8 +194,8 @@ func runQual() {
 				sc := &scenario{ID: len(cases) + 1, Dialect: d, Roles: qc.name, Req: req, Dir: "qual"}
 				cases = append(cases, sc)
 				sc.First = line + 1
-				emit(ev{"ev": "reset", "c": sc.ID, "req": req, "schema": marker,
-					"start": map[string]any{"tables": []string{}, "fks": [][4]string{}}, "want": map[string]any{"tables": []string{}, "fks": [][4]string{}}})
+				emit(ev{"ev": "reset", "c": sc.ID, "req": req, "schema": marker, "dialect": d,
+					"start": map[string]any{"tables": []string{}, "fks": []fk5{}}, "want": map[string]any{"tables": []string{}, "fks": []fk5{}}})
 				var opts []migrate.PlanOption
 				if req == "none" {
 					opts = append(opts, func(o *migrate.PlanOptions) { o.SchemaQualifier = new(string) })
